@@ -411,4 +411,10 @@ def r5_package_delegation(chk):
     chk.ob('C10.R5', 'PyPackageSearcher.fileExists/unimportable-not-found', ok, where(ci.mod, fn), '')
 
 
-RULES = [r1_searcher_protocol, r2_nodeps_filter, r3_file_searchers, r4_stub, r5_package_delegation]
+def r6_argument_agreement(chk):
+    rels = sorted(r for r in chk.model.modules if r.startswith(('pysmi/searcher/',)))
+    common.argument_agreement(chk, 'C10.R6', rels, floor=3)
+
+
+
+RULES = [r1_searcher_protocol, r2_nodeps_filter, r3_file_searchers, r4_stub, r5_package_delegation, r6_argument_agreement]
